@@ -1238,7 +1238,7 @@ static void DecodeBSS(Word Index) {
     if (ChkArgCnt(1, 1)) {
         tSymbolFlags Flags;
 
-        HVal16 = EvalStrIntExpressionWithFlags(&ArgStr[1], Int16, &OK, &Flags);
+        HVal16 = EvalStrIntExpressionWithFlags(&ArgStr[1], UInt16, &OK, &Flags);
         if (mFirstPassUnknown(Flags)) {
             WrError(ErrNum_FirstPassCalc);
         } else if (OK) {
